@@ -83,6 +83,7 @@ package complexity
 // The operation is costed with exactly the variables of the request as the executor coerced them (an explicit null
 // is a present entry and stays one), on the operation handed in, against the executable schema's own schema.
 //@ func Calculate [C14]
+//@   replay complexityVariables.go.tmpl for walker.vars
 //@   requires op != nil && es != nil
 //@   at! `walker.selectionSetComplexity(ctx, op.SelectionSet)` requires walker.vars == vars && walker.es == es && arg1 == op.SelectionSet
 //@   ensures res0 >= 0
